@@ -26,8 +26,9 @@ vars == <<img, out, rem, done, pal, cmp>>
 CONSTANTS AllowRep,     \* FALSE: only the literal actions (the uncompressed layout / literal-only encodings)
           Header,       \* "RAT" | "MGE-RLE" | "MGE-RAW" | "HRS" | "VEF" | "NONE"
           Skip, VefType, PalSet
-\* palette k: slot i holds code (k + 4 i) mod 64 -- over k = 0..63 every slot sees every code
-Palette(k) == [i \in 1..16 |-> (k + 4 * i) % 64]
+\* palette k: slot i holds code (k + 4 i) mod 64 -- over k = 0..63 every slot sees every code, over k = 0..3 every
+\* code occurs.  An element of PalSet is k + 64 * kind: kind 0 leaves the palette kind of an MGE file open, 1 = RGB, 2 = composite
+Palette(k) == [i \in 1..16 |-> ((k % 64) + 4 * i) % 64]
 Title == <<84, 76, 65>> \o <<0>> \o [i \in 1..26 |-> 32]      \* "TLA", NUL, padding: 30 bytes
 HeaderBytes(p, c) ==
   CASE Header = "RAT" -> <<Esc, 1, 0>> \o p
@@ -46,8 +47,8 @@ AddRun(runs, v, n) == IF n <= 0 THEN runs
                       ELSE IF runs # <<>> /\ runs[Len(runs)][1] = v THEN [runs EXCEPT ![Len(runs)] = <<v, @[2] + n>>]
                       ELSE Append(runs, <<v, n>>)
 Init == /\ img = <<>> /\ rem = Total /\ done = FALSE
-        /\ \E k \in PalSet : pal = Palette(k)
-        /\ cmp \in (IF Header \in {"MGE-RLE", "MGE-RAW"} THEN {0, 1} ELSE {0})
+        /\ \E k \in PalSet : /\ pal = Palette(k)
+                             /\ cmp \in (IF Header \in {"MGE-RLE", "MGE-RAW"} THEN (IF k \div 64 = 0 THEN {0, 1} ELSE {(k \div 64) - 1}) ELSE {0})
         /\ out = <<>>                     \* the body; the file is HeaderBytes(pal, cmp) followed by it
 
 Raw(v, n0) == LET n == MinI(n0, rem) IN
